@@ -8,6 +8,7 @@
     Gen/VersionsGen.v. *)
 From Verif.Base Require Import Prelude.
 From Verif.Gen Require Import VersionsGen ServerInitGen.
+From Verif.Model Require Import Batching Negotiation.
 Open Scope Z_scope.
 
 (** The [protocolVersion] member of the initialize request's params. *)
@@ -31,3 +32,11 @@ Definition server_answer (r : requested) : option str :=
 (** The value stored in SessionInfo.protocol_version of the created session. *)
 Definition session_version (r : requested) : option str :=
   session_version_of (server_decide (read_requested r)).
+
+(** The response as the client model sees it (Model/Negotiation.v's [answer]):
+    a result object carrying the decided protocolVersion together with the
+    handler's own serverInfo and capabilities (which validate: [rest_ok]). *)
+Definition jver_of (x : option str) : jver :=
+  match x with Some s => JStr s | None => JNonStr end.
+Definition server_response (p : str) : answer :=
+  AResult (Some (jver_of (server_answer (RStr p)))) true.
